@@ -294,3 +294,32 @@ maverage_fir = _ma_design(
     [("S:H=(1/size)*sum_{i<size}z^-i", "NUM(result) * size == DEN(result) * GS(size) and DEN(result) != 0")],
     ["maverage.fir is the FIR filter with `size` coefficients 1/size: by C04's difference equation, the mean of the last size samples (zero history)"],
     lemmas=[Lemma("S:fir-and-recursive-agree:(1-u)*GS(n)==1-u**n(the-two-transfer-functions-cross-multiplied)", "n", "(1 - U) * GS(n) == 1 - UPOW(n)")])
+
+# ---------------------------------------------------------------------------
+# amdf: outer function - the difference filter 1 - z**-lag captured by the nested amdf_filter (generic evaluation point)
+def _amdf_getattr(m, base, attr):
+    if attr == "linearize" and _is_filt(base):
+        def linearize(m_, args, kwargs):
+            if args or kwargs:
+                raise _sym.PyRaise("TypeError")
+            n, d = _val(m_, base)
+            return m_.new_obj("ZFilter", {"numpoly": _c13.PV(n), "denpoly": _c13.PV(d)})
+        linearize._pyvc_callee = True
+        return linearize
+    return NotImplemented
+
+
+amdf_outer = _c13._design(
+    "amdf", "audiolazy/lazy_analysis.py::amdf",
+    {"lag>=1": _c13._generic(Mode(params=dict(lag=Int, size=Int), requires=["lag >= 1", "size >= 1"], ensures=[
+        ("C:returns-the-nested-filter", "is_closure(result, 'amdf_filter')"),
+        ("S:difference-filter-is-x[n]-x[n-lag]:H=1-z^-lag", "NUM(captured(result, 'filt')) == (1 - UPOW(lag)) * DEN(captured(result, 'filt')) and DEN(captured(result, 'filt')) != 0"),
+        ("C:averaging-size-is-the-argument", "same(captured(result, 'size'), size)")]))},
+    ["amdf(lag, size): the filter applied before abs() and the moving average is x[n] - x[n-lag] (transfer function 1 - z^-lag at a generic point); "
+     "the composition maverage(size)(abs(filt(sig))) itself is covered by the bounded stand-in"])
+amdf_outer.props = ["C20"]
+amdf_outer.replay = "oracles.bounded_adapter:c20"
+amdf_outer.getattr_hook = _amdf_getattr
+amdf_outer.globs = dict(amdf_outer.globs, tostream=None)
+amdf_outer.assumptions = amdf_outer.assumptions + ["LinearFilter.linearize() leaves a filter with integer delays unchanged (its loop over terms is not under contract)",
+                                                   "UPOW(k) = u**k is a specification function"]
